@@ -18,7 +18,7 @@ fn h(s: &str) -> u32 {
 }
 
 /// Catalogue of definition bodies over two references (this side's A and B).
-fn catalogue(a: &RType, b: &RType, full: bool) -> Vec<RType> {
+pub(crate) fn catalogue(a: &RType, b: &RType, full: bool) -> Vec<RType> {
     let mut c = vec![
         RType::opt(a.clone()),
         RType::vec(a.clone()),
@@ -69,6 +69,18 @@ fn queries() -> Vec<(RType, RType)> {
             RType::record(vec![(h("p"), RType::opt(oa.clone())), (h("q"), ob.clone())]),
         ),
         (RType::vec(na.clone()), RType::vec(oa.clone())),
+        (
+            RType::record(vec![(h("p"), RType::opt(RType::vec(na.clone()))), (h("q"), nb.clone())]),
+            RType::record(vec![(h("p"), RType::opt(RType::vec(oa.clone()))), (h("q"), ob.clone())]),
+        ),
+        (
+            RType::record(vec![(h("p"), RType::opt(RType::record(vec![(h("x"), na.clone())]))), (h("q"), nb.clone())]),
+            RType::record(vec![(h("p"), RType::opt(RType::record(vec![(h("x"), oa.clone())]))), (h("q"), ob.clone())]),
+        ),
+        (
+            RType::record(vec![(h("p"), RType::opt(RType::vec(nb.clone()))), (h("q"), na.clone())]),
+            RType::record(vec![(h("p"), RType::opt(RType::vec(ob.clone()))), (h("q"), oa.clone())]),
+        ),
         (
             RType::func(vec![oa.clone()], vec![nb.clone()], vec![]),
             RType::func(vec![na.clone()], vec![ob.clone()], vec![]),
